@@ -56,20 +56,29 @@ func (v *Verifier) buildQuery(o *Obligation, models bool) (string, []*Term) {
 	if !o.Cover {
 		asserts = append(asserts, Not(o.Goal))
 	}
-	// instantiate used lemmas
+	// instantiate used lemmas (two rounds: instances may enable further matches)
+	var uses []string
 	if o.Unit != nil && o.Unit.contract != nil {
-		for _, ln := range o.Unit.contract.Uses {
-			if l := v.lib.Lemmas[ln]; l != nil {
-				if t, err := v.lib.lemmaTerm(l); err == nil {
+		uses = append(uses, o.Unit.contract.Uses...)
+	}
+	uses = append(uses, o.UseLemmas...)
+	for round := 0; round < 2 && len(uses) > 0; round++ {
+		_, ax := v.lib.prelude(asserts, o.Opaque, o.Fuel)
+		scan := append(append([]*Term{}, asserts...), ax...)
+		seen := map[*Term]bool{}
+		for _, a := range asserts {
+			seen[a] = true
+		}
+		for _, ln := range uses {
+			l := v.lib.Lemmas[ln]
+			if l == nil {
+				continue
+			}
+			for _, t := range v.instantiateLemma(l, scan) {
+				if !seen[t] {
+					seen[t] = true
 					asserts = append(asserts, t)
 				}
-			}
-		}
-	}
-	for _, ln := range o.UseLemmas {
-		if l := v.lib.Lemmas[ln]; l != nil {
-			if t, err := v.lib.lemmaTerm(l); err == nil {
-				asserts = append(asserts, t)
 			}
 		}
 	}
